@@ -7,12 +7,11 @@
     modelled as [firstn] / [skipn]: the indices handed to them here are always
     match positions or scanner results, and that those are char boundaries (so the
     real functions do not panic) is an obligation of C01/C03, not of this file. *)
-From KV Require Import Base.Prelude Model.Search.
+From KV Require Import Base.Prelude Model.Search Model.Utf8.
 
 (* ------------------------------------------------------------ boundary scanners *)
 
-(** [(b as i8) >= -0x40]: b is not a UTF-8 continuation byte *)
-Definition byte_is_boundary (b : Z) : bool := (b <? 128) || (192 <=? b).
+(** [(b as i8) >= -0x40] (b is not a UTF-8 continuation byte) is [Model.Utf8.byte_is_boundary] *)
 
 (** number of leading continuation bytes *)
 Fixpoint count_cont (l : list Z) : nat :=
